@@ -495,6 +495,9 @@ func (w *World) Classify(op Op) (class string, ok bool) {
 			if _, imp := w.Pkgs[c].Imp[KindOf(op.N)][op.N]; imp {
 				cls += "+via-import"
 			}
+			if w.imported(t, op.N) {
+				cls += "+imported" // a third package imported the definition
+			}
 		}
 		if cls == "own" {
 			if w.imported(t, op.N) {
